@@ -340,7 +340,7 @@ def correspondence(ctx):
                 for e in sup:
                     exp_support[6 * e:6 * e + 6] = True
                 if not np.array_equal(bs.support, exp_support):
-                    res.disagree("barycentric support is not 6e..6e+5 of the coarse support", mesh=name, kind=kind, opts=ok_)
+                    res.disagree("barycentric support is not 6e..6e+5 of the coarse support", mesh=name, space=kind + str(deg), opts=ok_)
                     continue
                 nshape = bs.local2global.shape[1]
                 l2g = np.zeros((6 * ne, nshape), dtype=np.int64)
@@ -348,7 +348,7 @@ def correspondence(ctx):
                 if not (np.array_equal(bs.local2global.astype(np.int64), l2g) and
                         np.array_equal(bs.local_multipliers[exp_support], np.ones((6 * len(sup), nshape))) and
                         np.array_equal(bs.normal_multipliers, np.repeat(sp.normal_multipliers, 6))):
-                    res.disagree("barycentric local2global / multipliers / normal multipliers", mesh=name, kind=kind, opts=ok_)
+                    res.disagree("barycentric local2global / multipliers / normal multipliers", mesh=name, space=kind + str(deg), opts=ok_)
                 if kind == "DP":
                     P = _predict_block(sp, 6, lambda idx, e: np.ones((6, 1)))
                     tol, wk = 0.0, "dp0"
@@ -375,13 +375,13 @@ def correspondence(ctx):
                     P = _predict_block(sp, 18, block)
                     tol, wk = 1e-13, "piola"
                 if T.shape != P.shape:
-                    res.disagree("dof_transformation shape", mesh=name, kind=kind, opts=ok_, impl=list(T.shape), model=list(P.shape))
+                    res.disagree("dof_transformation shape", mesh=name, space=kind + str(deg), opts=ok_, impl=list(T.shape), model=list(P.shape))
                     continue
                 err = np.abs(T - P) / np.maximum(1.0, np.abs(P))
                 worst[wk] = max(worst[wk], float(err.max()))
                 if err.max() > tol:
                     r, c = np.unravel_index(np.argmax(err), err.shape)
-                    res.disagree("dof_transformation entry", mesh=name, kind=kind, opts=ok_, row=int(r), col=int(c),
+                    res.disagree("dof_transformation entry", mesh=name, space=kind + str(deg), opts=ok_, row=int(r), col=int(c),
                                  support_position=int(r // (T.shape[0] // len(sup))), sub=int((r % (T.shape[0] // len(sup))) // nshape),
                                  impl=float(T[r, c]), model=float(P[r, c]))
                 if kind == "P":
@@ -827,7 +827,7 @@ def oracle(ctx, deep=False):
         pairs = [(("P", 1), ("DUAL", 0)), (("DP", 0), ("DUAL", 1)), (("RWG", 0), ("RBC", 0)), (("BC", 0), ("SNC", 0))]
         if deep:
             pairs += [(("DUAL", 1), ("P", 1)), (("DUAL", 0), ("DP", 0)), (("BC", 0), ("RBC", 0)), (("P", 1), ("DUAL", 1))]
-        mkeys = ["full"] + (["seg-ext"] if deep else [])
+        mkeys = ["full"] + (["seg", "seg-ext"] if deep else [])
         for dom, dual in pairs:
             if not closed and dom[0] in ("BC", "RBC") or not closed and dual[0] in ("BC", "RBC"):
                 mk = ["full"]
